@@ -57,6 +57,27 @@ def _impl(tier, seed, search):
             ok3, r3 = L.noraise('ppd', lambda: l.ppd, inp, 'ppd')
             if ok3: L.close('ppd', float(r3), float(np.linalg.norm(pp)), TOL, sc, inp)
             lam = float(g.normal() * 10)
+            # defining data in single precision: the line is the double-precision line through the values given
+            if i % 5 == 2:
+                P32, Q32 = P.astype(np.float32), Q.astype(np.float32); P64, Q64 = P32.astype(float), Q32.astype(float)
+                if np.linalg.norm(Q64 - P64) > 1e-3 * max(1.0, sc):
+                    for nm_, mk_ in (('PQ', lambda: Plucker.PQ(P32, Q32)), ('PointDir', lambda: Plucker.PointDir(P32, (Q64 - P64).astype(np.float32)))):
+                        ok3, l32 = L.noraise(f'{nm_}(float32)', lambda: (lambda l_: (np.asarray(l_.pp, float), np.asarray(l_.uw, float), np.asarray(l_.v, float), np.asarray(l_.w, float)))(mk_()), dict(P=P64, Q=Q64), f'Plucker.{nm_} from float32 arrays')
+                        if ok3:
+                            L.close(f'{nm_}(float32):contains-P', dist_to_line(P64, l32[0], l32[1]), 0.0, TOL * 10, sc, dict(P=P64, Q=Q64), what=f'a line built by {nm_} from float32 points does not pass through the first point', sig='float32-points')
+                            if nm_ == 'PQ': L.close('PQ(float32):contains-Q', dist_to_line(Q64, l32[0], l32[1]), 0.0, TOL * 10, sc, dict(P=P64, Q=Q64), sig='float32-points')
+                            L.close(f'{nm_}(float32):plucker-constraint', float(np.dot(l32[2], l32[3])), 0.0, TOL * 10, sc * sc * max(1.0, float(np.linalg.norm(Q64 - P64))), dict(P=P64, Q=Q64), sig='float32-points')
+            # the line against a box it pierces: hit points in the order of their parameters, each one point(lam) and on the boundary of the box
+            if i % 4 == 1:
+                half_ = sc * 2.0 + 1.0; cen_ = P + d * 0.37; bounds_ = np.array([cen_[0] - half_, cen_[0] + half_, cen_[1] - half_ * 1.5, cen_[1] + half_ * 1.5, cen_[2] - half_ * 0.7, cen_[2] + half_ * 0.7])
+                for sgn_ in (1.0, -1.0):
+                    lq = Plucker.PQ(P, Q) if sgn_ > 0 else Plucker.PQ(Q, P)
+                    ok3, rv = L.noraise('intersect_volume', lambda: (lambda r_: (np.asarray(r_.p, float), np.asarray(r_.lam, float), [np.asarray(lq.point(x_), float).flatten() for x_ in r_.lam]))(lq.intersect_volume(bounds_.copy())), dict(inp, bounds=bounds_), 'intersect_volume')
+                    if ok3 and rv[0].ndim == 2 and rv[0].shape[1] == len(rv[1]) == 2:
+                        L.check('intersect_volume:ordered', rv[1][0] <= rv[1][1], dict(inp, bounds=bounds_), 'intersect_volume: parameters not in ascending order', sig='intersect_volume')
+                        for k_ in range(2):
+                            L.close('intersect_volume:p=point(lam)', rv[0][:, k_], rv[2][k_], TOL, max(sc, half_ * 2), dict(inp, bounds=bounds_, k=k_), what='column k of intersect_volume().p is not point(lam[k])', sig='intersect_volume')
+                            L.close('intersect_volume:on-line', dist_to_line(rv[0][:, k_], P, d), 0.0, TOL, max(sc, half_ * 2), dict(inp, bounds=bounds_, k=k_), sig='intersect_volume')
             # several parameters at once: column k is point(lam_k)
             lams_ = [0.0, lam, -1.0, 2.5][: 2 + i % 3]
             ok3, r3 = L.noraise('point(vector)', lambda: (np.asarray(l.point(lams_), float), [np.asarray(l.point(x_), float).flatten() for x_ in lams_], np.asarray(l.point(np.array(lams_)), float)), dict(inp, lam=lams_), 'point(vector of lambda)')
